@@ -176,17 +176,48 @@ def c09_check(S, exp, out_ids, result):
 
 
 def run_history(desc, props=("C03", "C05", "C09")):
+    """With desc['tz'] the whole history runs in that process time zone, the logical clock mapped onto instants around one of the zone's
+    daylight-saving transitions (see Session.use_instants)."""
+    tz = desc.get("tz")
+    if not tz:
+        return _run_history(desc, props)
+    import os
+    import time
+
+    old = os.environ.get("TZ")
+    os.environ["TZ"] = tz
+    time.tzset()
+    try:
+        return _run_history(desc, props)
+    finally:
+        if old is None:
+            os.environ.pop("TZ", None)
+        else:
+            os.environ["TZ"] = old
+        time.tzset()
+
+
+def _run_history(desc, props=("C03", "C05", "C09")):
     """Returns (problems: list of (property, text, step index), stats dict, session, steps log)."""
     seed = desc["seed"]
     rng = random.Random(seed)
     rp = regmodel.gen_regplan(rng, desc.get("n", 10), family=desc.get("family"), cfg=desc.get("cfg"))
     S = regmodel.Session(rp, seed, all_normalising=desc.get("all_normalising"))
     H = S.H
+    stats = collections.Counter()
+    if desc.get("tz"):
+        from vmon.checks import c18
+
+        trng = random.Random(seed ^ 0x7A)
+        tr = c18.transitions(desc["tz"], trng)
+        if tr:
+            T0, kind = trng.choice(tr)
+            S.use_instants(T0 - trng.choice([300, 1800, 3000, 3500]), trng.choice([37, 97, 181]), trng)
+            stats["histories_across_dst_transition"] = 1
     steps = desc.get("steps", 8)
     fresh = None
     problems = []
     log = []
-    stats = collections.Counter()
     psrcs = [i for i in S.reg if rp.role[i] == "psrc"]
     deletable = [i for i in S.reg if rp.role[i] in ("stored", "dsrc", "slit")]
     last_ok = False
